@@ -466,8 +466,9 @@ def normalize_url(
     query = safe_serialize_qsl(qsl)
 
     # Result
-    netloc = unsplit_netloc(user, password, hostname, port)
-    result = SplitResult(scheme, netloc.lower(), path, query, fragment)
+    # NOTE: only the hostname is case-insensitive, not the authentication
+    netloc = unsplit_netloc(user, password, hostname.lower(), port)
+    result = SplitResult(scheme, netloc, path, query, fragment)
 
     if not unsplit:
         return result
